@@ -187,6 +187,14 @@ Theorem C09_stft_model_meets_promise : forall (F W : Type) (f1 : F -> list Qc ->
 Proof. exact (@stft_model_meets_promise). Qed.
 Print Assumptions C09_stft_model_meets_promise.
 
+(* histories: one partial object used as a factory several times, one processor called several times: the model
+   of each call depends on the layers of its own chain only, so every call of any history meets its promise *)
+Theorem C09_stft_calls_independent : forall (F W : Type) (f1 : F -> list Qc -> list Qc)
+    (f2 : F -> list Qc -> nat -> list Qc) (wsem : W -> wndarg) gc (calls : list (list (kwl F W) * F * list Qc)),
+  Forall (call_ok f1 f2 wsem gc) calls.
+Proof. exact (@stft_calls_independent). Qed.
+Print Assumptions C09_stft_calls_independent.
+
 (* identity block processing (stages None, func = identity, no analysis window), overlap_add.list with a
    window whose hop-shifted copies sum to one and no normalisation, in any calling style:
    the output is the input on every sample covered by all of its blocks *)
